@@ -120,6 +120,8 @@ def oracle(c, impl):
         for seg, files in o["hashes"].items():
             if o.get("parked_at") and ("index" not in o or int(seg) not in {e[0] for e in o["index"]}):
                 continue   # not a quiescent observation: only what segments.idx names counts as published
+            if "HIDE" in ops and "index" in o and int(seg) not in {e[0] for e in o["index"]}:
+                continue   # the partly written output a failed round left behind is not a published segment
             if seg in seen and seen[seg][1] != files:
                 return (f"obs#{n}: segment {seg} differs from what it held at obs#{seen[seg][0]} "
                         f"(files {sorted(set(files) ^ set(seen[seg][1]))[:4]} ...): rewritten or its id was handed out again")
